@@ -125,6 +125,15 @@ func execM(cd *common.Codec, sc *Scenario, data []byte, x *simkit.Ctx, allocByte
 			if rd != nil && rd.Stuck {
 				r.stuck = true
 			}
+			// a caller that logs the error and calls Next again (a retry loop)
+			// must get an answer - any answer - not a panic and not a spin
+			if r.err != nil && !r.stuck {
+				first := r.err
+				for i := 0; i < 2; i++ {
+					dec.Next()
+				}
+				r.err = first
+			}
 		}
 	})
 	r.alloc = allocBytes() - a0
